@@ -640,6 +640,15 @@ fn run_helpers(run: &mut Run) {
                                 return;
                             }
                         }
+                        // ... nor on data that does not even start like one
+                        if !matches!(c.shown[0], 0x10 | 0x68 | 0xA2 | 0xDC | 0xE5) {
+                            run.violate(
+                                "stream.discard",
+                                "junk-kept",
+                                format!("buffer {:02x?} does not start with a start delimiter, can never become a telegram, and yet nothing was dropped", c.shown),
+                            );
+                            return;
+                        }
                     }
                 }
             }
